@@ -291,7 +291,7 @@ fn base_char(c: char) -> bool {
 
 /// base = pool base, a token of the library's source, or two of them joined by '-';
 /// bounds and versions = free version-token sequences (letters and dictionary tokens included)
-fn free_strategy(_t: Tier) -> BoxedStrategy<Case> {
+pub fn free_strategy(_t: Tier) -> BoxedStrategy<Case> {
     use crate::props::vergen;
     let base = prop_oneof![
         2 => (0usize..BASES.len()).prop_map(|i| BASES[i].to_string()),
@@ -398,11 +398,10 @@ pub fn property() -> Property {
             random_stream("random", "random (pattern, name) pairs", case_strategy, |t| t.pick(200_000, 10_000_000), check),
             enumerated_stream("enumerated", "complete product: bases x operator shapes x bounds x base relations x versions", enumerate, check),
             random_stream("free-form", "bases from the pool and from the library's own literals, bounds and versions as free token sequences (letters included, KF-1 leniency as in C01)", free_strategy, |t| t.pick(60_000, 5_000_000), check_free),
-            random_stream("realistic", "real pkgsrc dewey patterns (sample of tests/data/pkgdeps.txt) against real package versions (pkgnames.txt), KF-1 leniency as in C01", real_strategy, |t| t.pick(60_000, 5_000_000), check_real),
-        ],
+            random_stream("realistic", "real pkgsrc dewey patterns (sample of tests/data/pkgdeps.txt) against real package versions (pkgnames.txt), KF-1 leniency as in C01", real_strategy, |t| t.pick(60_000, 5_000_000), check_real), crate::fuzz::replay_stream()],
         selfcheck: m::selfcheck,
         hang_is_violation: false,
         min_nontrivial_share: 0.2,
-        extra: None,
+        extra: Some(crate::fuzz::extra),
     }
 }
